@@ -125,8 +125,15 @@ BuildTop(sd, kw, ds) ==
               !.idel = kw.idel, !.ianew = kw.ianew, !.isafe = kw.isafe]
 
 \* one YAML document of a source added with safe = srcSafe
-Parse(sd, srcSafe) ==
+ParseIntended(sd, srcSafe) ==
     IF Tagged(sd) THEN ParseTagged(sd, Tri(srcSafe)) ELSE BuildTop(sd, NoKw, Tri(srcSafe))
+
+\* (design mutation for the vacuity guard of C01: items whose key starts with '_' get lost)
+RECURSIVE DropUnderscore(_)
+DropUnderscore(n) ==
+    [n EXCEPT !.ch = [i \in 1..Len(SelectSeq(n.ch, LAMBDA e : ~(e[1].t = "s" /\ e[1].s = "_u"))) |->
+        LET c == SelectSeq(n.ch, LAMBDA e : ~(e[1].t = "s" /\ e[1].s = "_u"))[i] IN <<c[1], DropUnderscore(c[2])>>]]
+Parse(sd, srcSafe) == IF Mut("DropUnderscoreKeys") THEN DropUnderscore(ParseIntended(sd, srcSafe)) ELSE ParseIntended(sd, srcSafe)
 
 ----------------------------------------------------------------------------
 \* the tag-free reading of a surface document (what yaml.load yields)
